@@ -66,8 +66,10 @@ pub(crate) fn decimal_to_binary_float<F: Float, D: BinaryBuf>(
 
         let payload = decode_significand_trailing_declets(decimal);
 
+        // Binary floating point NaNs have much less space for a payload than decimals do.
+        // If the payload doesn't fit then it's discarded
         let payload = F::NanPayload::try_from_ascii(false, payload.flatten())
-            .ok_or_else(|| ConvertError::would_overflow(type_name::<F>()))?;
+            .unwrap_or_else(F::NanPayload::zero);
 
         Ok(F::nan(
             is_sign_negative(decimal),
